@@ -251,6 +251,20 @@ pub fn generate(thorough: bool) -> (String, usize) {
         .unwrap();
         cases.push(format!("case_interface_{f}"));
     }
+    // fields that carry serde attributes which do not take them off the wire (the type also derives
+    // the serde traits): they are fields like any other
+    writeln!(
+        s,
+        "#[derive(serde::Serialize, serde::Deserialize, zlink_core::introspect::Type)]\n#[zlink(crate = \"zlink_core\")]\n#[allow(dead_code)]\npub struct SerdeAttrsT {{\n    pub pattern: String,\n    #[serde(skip_serializing_if = \"Option::is_none\")]\n    pub limit: Option<i64>,\n    #[serde(default, skip_serializing_if = \"Vec::is_empty\")]\n    pub tags: Vec<String>,\n    #[serde(skip_serializing_if = \"Option::is_none\", default)]\n    pub deep: Option<bool>,\n    #[serde(default)]\n    pub exact: bool,\n}}\n#[derive(serde::Serialize, serde::Deserialize, zlink_core::introspect::CustomType)]\n#[zlink(crate = \"zlink_core\")]\n#[allow(dead_code)]\npub struct SerdeAttrsC {{\n    #[serde(skip_serializing_if = \"Option::is_none\")]\n    pub first: Option<String>,\n    pub n: u32,\n    #[serde(default, skip_serializing_if = \"std::collections::HashMap::is_empty\")]\n    pub last: std::collections::HashMap<String, f64>,\n}}"
+    )
+    .unwrap();
+    writeln!(
+        s,
+        "pub fn case_serde_attrs(sink: &mut Sink<'_>) {{\n    let f = |n: &str, ty: RType| RField {{ comments: vec![], name: n.into(), ty }};\n    let fields = vec![f(\"pattern\", RType::String), f(\"limit\", RType::Optional(Box::new(RType::Int))), f(\"tags\", RType::Array(Box::new(RType::String))), f(\"deep\", RType::Optional(Box::new(RType::Bool))), f(\"exact\", RType::Bool)];\n    check_type(sink, \"SerdeAttrsT\", <SerdeAttrsT as Type>::TYPE, &RType::Struct(fields));\n    let fields = vec![f(\"first\", RType::Optional(Box::new(RType::String))), f(\"n\", RType::Int), f(\"last\", RType::Map(Box::new(RType::Float)))];\n    check_custom(sink, \"SerdeAttrsC\", <SerdeAttrsC as CustomType>::CUSTOM_TYPE, &RMember {{ comments: vec![], name: \"SerdeAttrsC\".into(), kind: RKind::TypeStruct(fields) }});\n}}"
+    )
+    .unwrap();
+    cases.push("case_serde_attrs".into());
+    n_types += 2;
     // doc comments that span several lines in one attribute (block comments, multi-line strings):
     // each line is one comment line of the description, so that the rendered interface parses back
     writeln!(
